@@ -582,44 +582,58 @@ def lemma_L6(run, shape):
 
 
 def lemma_L7(run):
+    """get_legal_moves == get_all_moves filtered by is_legal_move, as a list (same moves, same order).  Both callees are
+    replaced by arbitrary results: n moves, each present or not, legality an arbitrary function of the move.  The comparison
+    is semantic (k-th element of the result == k-th accepted move), so it does not depend on how the result is assembled."""
     ex = run.executor()
     S = B.SymBoard('S', B.WHITE)
     n = 4
     plies = [B.SymPly('am%d' % i, piece=B.KNIGHT, color=B.WHITE, free_flags=True) for i in range(n)]
     gs = [z3.Bool('am%d_present' % i) for i in range(n)]
-    fl = []
-    asked = []
+    L = [z3.Bool('legal_%d' % i) for i in range(n)]
+    other = []
+
+    def same(a, b_):
+        return z3.And(*[x[1] == y[1] for x, y in zip(B.ply_terms(a), B.ply_terms(b_))])
+    pre = [z3.Implies(same(plies[i].value(), plies[j].value()), L[i] == L[j]) for i in range(n) for j in range(i + 1, n)]
 
     def get_all_moves(ctx, bp):
         return Seq(tuple((gs[i], plies[i].value()) for i in range(n)))
 
     def is_legal_move(ctx, bp, mv):
-        i = len(asked)
-        f = z3.Bool('legal_%d' % i)
-        fl.append(f)
-        asked.append((mv, ctx.st.guard))
+        f = z3.Bool('legal_other_%d' % len(other))       # a move that is none of the generated ones: any answer
+        other.append(f)
+        for i in reversed(range(n)):
+            f = z3.If(same(mv, plies[i].value()), L[i], f)
         return Enum(z3.If(f, z3.BitVecVal(0, 64), z3.BitVecVal(1, 64)), {0: (mv,), 1: (models.StrV('x'),)})
     ex.override('board::Board::get_all_moves', get_all_moves)
     ex.override('board::Board::is_legal_move', is_legal_move)
+    for c in pre:
+        ex.assume(c)
     st = State()
     bp = ex.alloc(st, S.value())
     r = ex.call('board::Board::get_legal_moves', [bp], ['&mut board::Board'], 'std::vec::Vec<board::ply::Ply>', st, 'harness')
     out, st2 = r
-    bad = []
-    outs = list(out.ents)
-    if len(outs) != n or len(asked) != n:
-        run.violation('get_legal_moves structure: %d outputs, %d legality questions for %d moves' % (len(outs), len(asked), n), {})
-    else:
-        for i in range(n):
-            og, ov = outs[i]
-            bad.append(zb(og) != z3.And(gs[i], fl[i]))
-            for a, b_ in zip(B.ply_terms(ov), B.ply_terms(plies[i].value())):
-                bad.append(z3.And(gs[i], a[1] != b_[1]))
-            for a, b_ in zip(B.ply_terms(asked[i][0]), B.ply_terms(plies[i].value())):
-                bad.append(z3.And(gs[i], a[1] != b_[1]))
-        q = run.decide('L7/get_legal_moves', [z3.Or(*bad)], kind='smt', note='get_legal_moves keeps exactly the moves is_legal_move accepts, unchanged and in order')
-        if q.verdict == 'sat':
-            run.violation('get_legal_moves is not the filter of get_all_moves by is_legal_move', {})
+    if not isinstance(out, Seq):
+        raise Unsupported('get_legal_moves returns %r' % (out,))
+    O = [(zb(g), v) for g, v in out.ents]
+    E = [(z3.And(gs[i], L[i]), plies[i].value()) for i in range(n)]
+
+    def before(ents, k):
+        return z3.Sum([z3.If(ents[j][0], 1, 0) for j in range(k)]) if k else z3.IntVal(0)
+    bad = [before(O, len(O)) != before(E, len(E))]
+    for a, (ga, va) in enumerate(O):
+        for b_, (gb, vb) in enumerate(E):
+            bad.append(z3.And(ga, gb, before(O, a) == before(E, b_), z3.Not(same(va, vb))))
+    q = run.decide('L7/get_legal_moves', pre + [zb(st2.guard), z3.Or(*bad)], kind='smt',
+                   note='get_legal_moves keeps exactly the moves is_legal_move accepts, unchanged and in order (list equality, %d result slots)' % len(O))
+    if q.verdict == 'sat':
+        m = q.model
+        desc = ['move %d: present=%s legal=%s %s' % (i, m.eval(gs[i], True), m.eval(L[i], True),
+                                                       ' '.join('%s=%s' % (t[0], m.eval(t[1], True)) for t in B.ply_terms(plies[i].value())[:8])) for i in range(n)]
+        run.violation('get_legal_moves is not the filter of get_all_moves by is_legal_move\n      ' + '\n      '.join(desc), {'moves': desc})
+    for ob, qq in run.check_obligations(ex, 'L7', pre=pre):
+        run.violation('L7: get_legal_moves can panic: %s' % ob, {})
     run.stubs.add('L7: get_all_moves / is_legal_move replaced by arbitrary results (their exactness is L4-L6)')
     run.absorb(ex)
 
